@@ -14,6 +14,8 @@ def plan(tier, seed):
         j = ch("C17", F, "h_dtypes_nullable", t, fun, shape=dict(map_column_first=nested), env=dict(VERIF_NESTED=nested))
         j["name"] += "[nested=%d]" % nested
         jobs.append(j)
+    jobs.append(ch("C17", F, "h_slice_dtypes", t, ["api.ParquetFile.__getitem__", "api.ParquetFile.__getstate__",
+                                                   "api.ParquetFile.__setstate__", "api.ParquetFile._dtypes"]))
     from . import cats
     jobs += cats.jobs("C17", tier)
     jobs.append(ch("C17", F, "h_prealloc", t, ["api.ParquetFile.pre_allocate", "api._pre_allocate",
